@@ -302,8 +302,12 @@ def apply_op(w, op, res):
             if any((m, s) not in w.shadow for (m, s) in touched):
                 res.probe("name_known_to_one_manager_only")
     elif kind == "begin_session":
-        b.begin_session(scenarios=list(op["scenarios"]), scenario_managers=list(op["managers"]), settings=copy.deepcopy(op["settings"]),
-                        equations=list(op["equations"]))
+        if op["settings"]:
+            b.begin_session(scenarios=list(op["scenarios"]), scenario_managers=list(op["managers"]), settings=copy.deepcopy(op["settings"]),
+                            equations=list(op["equations"]))
+        else:
+            # no settings: the argument is left out, as a caller would (the default must behave like an empty dictionary of one's own)
+            b.begin_session(scenarios=list(op["scenarios"]), scenario_managers=list(op["managers"]), equations=list(op["equations"]))
         w.apply_settings_shadow(op["settings"])
         touched = {(m, s) for m in op["managers"] for s in op["scenarios"]}
         if len(op["managers"]) > 1:
